@@ -122,18 +122,26 @@ func (b *c17RBus) Close() error                                         { return
 
 type c17RMixed struct{}
 
-func (c17RMixed) IsMixedAccessSVLAN(svlan uint16) bool { return svlan == 100 }
+func (c17RMixed) IsMixedAccessSVLAN(svlan uint16) bool { return svlan == 100 || svlan == 101 }
 
 type c17RTuple struct {
 	mac net.HardwareAddr
 	cvl uint16
+	svl uint16
 }
 
+// same ten tuples as the e2e harness: t0 base, t1 MAC[5], t2 C-VLAN, t3 C-VLAN 0 + MAC[5], t4 S-VLAN, t5..t9 MAC[0]..MAC[4]
 var c17RTuples = []c17RTuple{
-	{net.HardwareAddr{0x02, 0xaa, 0xbb, 0xcc, 0x00, 0x01}, 10},
-	{net.HardwareAddr{0x02, 0xaa, 0xbb, 0xcc, 0x00, 0x11}, 10},
-	{net.HardwareAddr{0x02, 0xaa, 0xbb, 0xcc, 0x00, 0x01}, 11},
-	{net.HardwareAddr{0x02, 0xaa, 0xbb, 0xcc, 0x00, 0x02}, 0},
+	{net.HardwareAddr{0x02, 0xaa, 0xbb, 0xcc, 0x00, 0x01}, 10, 100},
+	{net.HardwareAddr{0x02, 0xaa, 0xbb, 0xcc, 0x00, 0x11}, 10, 100},
+	{net.HardwareAddr{0x02, 0xaa, 0xbb, 0xcc, 0x00, 0x01}, 11, 100},
+	{net.HardwareAddr{0x02, 0xaa, 0xbb, 0xcc, 0x00, 0x02}, 0, 100},
+	{net.HardwareAddr{0x02, 0xaa, 0xbb, 0xcc, 0x00, 0x01}, 10, 101},
+	{net.HardwareAddr{0x06, 0xaa, 0xbb, 0xcc, 0x00, 0x01}, 10, 100},
+	{net.HardwareAddr{0x02, 0xab, 0xbb, 0xcc, 0x00, 0x01}, 10, 100},
+	{net.HardwareAddr{0x02, 0xaa, 0xba, 0xcc, 0x00, 0x01}, 10, 100},
+	{net.HardwareAddr{0x02, 0xaa, 0xbb, 0xcd, 0x00, 0x01}, 10, 100},
+	{net.HardwareAddr{0x02, 0xaa, 0xbb, 0xcc, 0x01, 0x01}, 10, 100},
 }
 
 type c17RWorld struct {
@@ -147,7 +155,7 @@ type c17RWorld struct {
 }
 
 func (w *c17RWorld) tk(t int) session.TupleKey {
-	return session.MakeTupleKey(100, c17RTuples[t].cvl, c17RTuples[t].mac)
+	return session.MakeTupleKey(c17RTuples[t].svl, c17RTuples[t].cvl, c17RTuples[t].mac)
 }
 
 func (w *c17RWorld) boot() {
@@ -155,7 +163,7 @@ func (w *c17RWorld) boot() {
 		w.stop()
 	}
 	cfg := &config.Config{SubscriberGroups: &subscriber.SubscriberGroupsConfig{Groups: map[string]*subscriber.SubscriberGroup{
-		"grp": {VLANs: []subscriber.VLANRange{{SVLAN: "100", AccessTypes: []subscriber.AccessType{subscriber.AccessTypeIPoE, subscriber.AccessTypePPPoE}}}},
+		"grp": {VLANs: []subscriber.VLANRange{{SVLAN: "100-101", AccessTypes: []subscriber.AccessType{subscriber.AccessTypeIPoE, subscriber.AccessTypePPPoE}}}},
 	}}}
 	w.reg = session.NewRegistry()
 	w.bus = &c17RBus{}
@@ -202,7 +210,7 @@ func (w *c17RWorld) snapshot(first int) string {
 		np := 0
 		w.c.sessionMu.RLock()
 		for _, s := range w.c.sessionIDIndex {
-			if s.MAC.String() == c17RTuples[t].mac.String() && s.OuterVLAN == 100 && s.InnerVLAN == c17RTuples[t].cvl {
+			if s.MAC.String() == c17RTuples[t].mac.String() && s.OuterVLAN == c17RTuples[t].svl && s.InnerVLAN == c17RTuples[t].cvl {
 				np++
 			}
 		}
@@ -223,7 +231,9 @@ func (w *c17RWorld) snapshot(first int) string {
 	parts := []string{one(first)}
 	for t := range c17RTuples {
 		if t != first {
-			parts = append(parts, one(t))
+			if s := one(t); !strings.HasSuffix(s, ":i0p0:-") {
+				parts = append(parts, s)
+			}
 		}
 	}
 	return strings.Join(parts, ",")
@@ -250,8 +260,8 @@ func c17RRun(f []string) (out string) {
 			tp := c17RTuples[t]
 			sess := &SessionState{
 				SessionID: fmt.Sprintf("p%d", w.n), AcctSessionID: fmt.Sprintf("a%d", w.n), PPPoESessionID: uint16(w.n),
-				MAC: tp.mac, OuterVLAN: 100, InnerVLAN: tp.cvl, Phase: ppp.PhaseEstablish, GroupName: "grp",
-				MixedAccess: w.c.isMixedAccessSVLAN(100), Attributes: map[string]string{},
+				MAC: tp.mac, OuterVLAN: tp.svl, InnerVLAN: tp.cvl, Phase: ppp.PhaseEstablish, GroupName: "grp",
+				MixedAccess: w.c.isMixedAccessSVLAN(tp.svl), Attributes: map[string]string{},
 				CreatedAt: time.Now(), LastSeen: time.Now(), component: w.c,
 			}
 			sess.initPPP()
